@@ -23,7 +23,8 @@ def fused_cast_constant_of_shape(op, shape: ir.Value, scalar: ir.Attr, dtype: ir
 
 
 def cast_constant_of_shape_without_value(op, shape, dtype):
-    constant = op.ConstantOfShape(shape)
+    # A ConstantOfShape node that carries a ``value`` attribute is not filled with zeros.
+    constant = op.ConstantOfShape(shape, _allow_other_attributes=False)
     return op.Cast(constant, to=dtype)
 
 
